@@ -267,3 +267,38 @@ def landmarks(method: str) -> list[str]:
         "25": ["0800000000", "0900000000", "0100000000"],
     }
     return common + extra.get(method, [])
+
+
+def feature(method: str, s: str):
+    """Which branch of the published rule an account number falls into (used to pick operands that
+    exercise every branch, not just every verdict)."""
+    n = int(s)
+    if method == "08":
+        return "below-60000" if n < 60_000 else "checked"
+    if method in ("13", "26"):
+        return "starts-00" if s.startswith("00") else "plain"
+    if method == "63":
+        return "first-nonzero" if s[0] != "0" else ("starts-00" if s.startswith("00") else "plain")
+    if method == "76":
+        return ("type-" + ("ok" if s[0] in "046789" else "refused")) + ("-00" if s.startswith("00") else "")
+    if method == "24":
+        return "first-3456" if s[0] in "3456" else "first-9" if s[0] == "9" else "plain"
+    if method == "61":
+        return "ninth-8" if s[8] == "8" else "plain"
+    if method == "68":
+        return "ten-digits" if s[0] != "0" else "exempt-range" if 400_000_000 <= n <= 499_999_999 else "plain"
+    if method == "88":
+        return "third-9" if s[2] == "9" else "third-0" if s[2] == "0" else "third-1-8"
+    if method == "99":
+        return "exempt-range" if 396_000_000 <= n <= 499_999_999 else "checked"
+    if method == "91":
+        vs = [_rule06(s, 1, 6, R27, 7), _rule06(s, 1, 6, [7, 6, 5, 4, 3, 2], 7),
+              _rule06(s, 1, 10, [2, 3, 4, 0, 5, 6, 7, 8, 9, 10], 7), _rule06(s, 1, 6, [2, 4, 8, 5, 10, 9], 7)]
+        return "variant-" + (str(vs.index(True) + 1) if True in vs else "none")
+    if method == "16":
+        return "last-two-equal" if s[8] == s[9] and s[9] != "0" else "plain"
+    if method == "23":
+        return "6-7-equal" if s[5] == s[6] and s[6] != "0" else "plain"
+    if method == "25":
+        return "second-8-9" if s[1] in "89" else "plain"
+    return "plain"
